@@ -138,9 +138,40 @@ pub fn run(cases_path: &str, out_path: &str, tier: &str, seed: u64, which: &str)
             let toks = c["preimage"].as_array().unwrap();
             let typ = styp(t);
             let doc: &[u8] = b"one\ntwo\r\nthree\rfour\n\n";
-            let uid = UserId::from_str(PacketHeaderVersion::New, "Digest Test <d@example.org>").unwrap();
-            let uat = UserAttribute::new_image(vec![0xFFu8, 0xD8, 0xFF, 0xE0, 1, 2, 3, 4, 5].into()).unwrap();
-            let idbody = if obj == "userattr" { uat.to_bytes().unwrap() } else { uid.to_bytes().unwrap() };
+            // the certified object in several sizes and wire forms; the octets hashed are the packet body AS ON THE WIRE (built here)
+            let mut idvars: Vec<(String, UserId, UserAttribute, Vec<u8>)> = Vec::new();
+            {
+                let base_uid = UserId::from_str(PacketHeaderVersion::New, "Digest Test <d@example.org>").unwrap();
+                let base_uat = UserAttribute::new_image(vec![0xFFu8, 0xD8, 0xFF, 0xE0, 1, 2, 3, 4, 5].into()).unwrap();
+                if obj == "userattr" {
+                    idvars.push(("image".into(), base_uid.clone(), base_uat.clone(), base_uat.to_bytes().unwrap()));
+                    // attribute subpackets written with each legal length form, minimal or not, and several sizes
+                    for (n, form) in [(5usize, 1u8), (5, 2), (5, 5), (170, 1), (175, 2), (192, 2), (300, 2), (300, 5), (9000, 5)] {
+                        let mut sub = vec![1u8, 0x10, 0x00, 0x01, 0x01, 0, 0, 0, 0, 0, 0, 0, 0, 0, 0, 0, 0];
+                        sub.extend((0..n).map(|i| (i * 7) as u8));
+                        let l = sub.len();
+                        let mut wire_body = match form {
+                            1 => vec![l as u8],
+                            2 => { let v = l.max(192) - 192; if l < 192 { vec![] } else { vec![(v >> 8) as u8 + 192, (v & 0xff) as u8] } }
+                            _ => { let mut x = vec![0xFF]; x.extend_from_slice(&(l as u32).to_be_bytes()); x }
+                        };
+                        if wire_body.is_empty() || (form == 1 && l >= 192) { continue; }
+                        wire_body.extend_from_slice(&sub);
+                        let mut pkt = vec![0xC0 | 17];
+                        pkt.extend(enc_new_len(wire_body.len(), false));
+                        pkt.extend_from_slice(&wire_body);
+                        if let Some(Ok(Packet::UserAttribute(u))) = PacketParser::new(&pkt[..]).next() {
+                            idvars.push((format!("image {n} octets, length form {form}"), base_uid.clone(), u, wire_body));
+                        }
+                    }
+                } else {
+                    for n in [27usize, 0, 1, 191, 192, 255, 256, 8383, 8384, 70000] {
+                        let text = if n == 27 { "Digest Test <d@example.org>".to_string() } else { "u".repeat(n) };
+                        let u = UserId::from_str(PacketHeaderVersion::New, &text).unwrap();
+                        idvars.push((format!("user id {n} octets"), u, base_uat.clone(), text.into_bytes()));
+                    }
+                }
+            }
             // signer / signee combinations: own key, and a key of the OTHER version (third-party, cross-version)
             let signers: Vec<(&str, &SignedSecretKey)> = match sv {
                 6 => vec![("ed25519-v6", &k6), ("rsa-v6", &k6r)],
@@ -167,12 +198,20 @@ pub fn run(cases_path: &str, out_path: &str, tier: &str, seed: u64, which: &str)
                             continue;
                         }
                         let sets: Vec<usize> = if sv == 3 { vec![0] } else if sv == 6 { vec![1, 2, 4] } else { vec![0, 1, 2, 3] };
+                        let mut combos: Vec<(usize, usize)> = Vec::new();
                         for set in sets {
                             if !thorough && (hi + set + si) % 2 == 1 && set != 2 {
                                 continue;
                             }
+                            combos.push((set, 0));
+                            if matches!(t, 16..=19 | 48) && set == (if sv == 3 { 0 } else { 1 }) && (thorough || hi == 0) {
+                                combos.extend((1..idvars.len()).map(|iv| (set, iv)));
+                            }
+                        }
+                        for (set, iv) in combos {
+                            let (vname, uid, uat, idbody) = (&idvars[iv].0, &idvars[iv].1, &idvars[iv].2, &idvars[iv].3);
                             nontrivial.fetch_add(1, std::sync::atomic::Ordering::Relaxed);
-                            let cj = json!({"ci": c["ci"], "typ": t, "sigver": sv, "object": obj, "signer": sname, "signee": ename, "hash": format!("{h:?}"), "subpacket_set": set});
+                            let cj = json!({"ci": c["ci"], "typ": t, "sigver": sv, "object": obj, "signer": sname, "signee": ename, "hash": format!("{h:?}"), "subpacket_set": set, "id": vname});
                             let r = guard(|| -> Result<String, String> {
                                 let e = |x: pgp::errors::Error| x.to_string();
                                 let maker: &SignedSecretKey = if t == 25 { bk } else { signer };
@@ -204,9 +243,9 @@ pub fn run(cases_path: &str, out_path: &str, tier: &str, seed: u64, which: &str)
                                     let made: Option<Signature> = match t {
                                         0 | 1 => Some(cfg.clone().sign(&rs, &Password::empty(), doc).map_err(e)?),
                                         16..=19 | 48 => Some(if obj == "userattr" {
-                                            cfg.clone().sign_certification_third_party(&rs, &Password::empty(), &epub.primary_key, Tag::UserAttribute, &uat).map_err(e)?
+                                            cfg.clone().sign_certification_third_party(&rs, &Password::empty(), &epub.primary_key, Tag::UserAttribute, uat).map_err(e)?
                                         } else {
-                                            cfg.clone().sign_certification_third_party(&rs, &Password::empty(), &epub.primary_key, Tag::UserId, &uid).map_err(e)?
+                                            cfg.clone().sign_certification_third_party(&rs, &Password::empty(), &epub.primary_key, Tag::UserId, uid).map_err(e)?
                                         }),
                                         24 | 40 => Some(cfg.clone().sign_subkey_binding(&rs, &spub.primary_key, &Password::empty(), &signer.secret_subkeys[0].public_key()).map_err(e)?),
                                         25 => Some(cfg.clone().sign_primary_key_binding(&rs, &bpub.primary_key, &Password::empty(), &spub.primary_key).map_err(e)?),
@@ -242,8 +281,8 @@ pub fn run(cases_path: &str, out_path: &str, tier: &str, seed: u64, which: &str)
                                 let vr: pgp::errors::Result<()> = match t {
                                     0 | 1 => forged.verify(&rv, doc),
                                     16..=19 | 48 => {
-                                        if obj == "userattr" { forged.verify_third_party_certification(&epub.primary_key, &rv, Tag::UserAttribute, &uat) }
-                                        else { forged.verify_third_party_certification(&epub.primary_key, &rv, Tag::UserId, &uid) }
+                                        if obj == "userattr" { forged.verify_third_party_certification(&epub.primary_key, &rv, Tag::UserAttribute, uat) }
+                                        else { forged.verify_third_party_certification(&epub.primary_key, &rv, Tag::UserId, uid) }
                                     }
                                     24 | 40 => forged.verify_subkey_binding(&rv, &signer.secret_subkeys[0].public_key()),
                                     25 => forged.verify_primary_key_binding(&rv, &spub.primary_key),
@@ -309,6 +348,63 @@ pub fn run(cases_path: &str, out_path: &str, tier: &str, seed: u64, which: &str)
                 sink.put(rec("c11.api", json!({"key": name, "text": text}), r.is_ok(), "digest", json!({"outcome": r.class(), "detail": r.detail()})));
             }
         }
+        // documents around the reader's block sizes, with every line-ending tail, through Signature::verify under read schedules,
+        // and as PREFIX-signed messages (signature packet before the literal data) through the streaming message reader
+        let tails: [&[u8]; 6] = [b"", b"\r", b"\n", b"\r\n", b"\r\r", b"\n\r"];
+        let mut lens: Vec<usize> = vec![0, 1, 2, 3, 100];
+        for b in [512usize, 1024, 2048, 4096, 8192] { lens.extend([b - 2, b - 1, b, b + 1, b + 2]); }
+        if thorough { lens.extend(505..520); lens.extend([16383, 16384, 16385, 65535, 65536, 65537]); }
+        let tok_for = |t: u64, sv: u64| -> Vec<Value> { cases.iter().find(|c| c["kind"] == "digest" && c["typ"] == t && c["sigver"] == sv).map(|c| c["preimage"].as_array().unwrap().clone()).unwrap_or_default() };
+        let combos: Vec<(usize, usize, bool, u64)> = lens.iter().flat_map(|&l| (0..tails.len()).flat_map(move |ti| [false, true].into_iter().flat_map(move |text| [4u64, 6].into_iter().map(move |sv| (l, ti, text, sv))))).collect();
+        combos.par_iter().for_each(|&(len, ti, text, sv)| {
+            let tail = tails[ti];
+            if len < tail.len() { return; }
+            let k = if sv == 6 { &k6 } else { &k4e };
+            let mut doc: Vec<u8> = (0..len - tail.len()).map(|i| match i % 97 { 13 => b'\n', 50 => b'\r', _ => b'a' + (i % 23) as u8 }).collect();
+            doc.extend_from_slice(tail);
+            nontrivial.fetch_add(1, std::sync::atomic::Ordering::Relaxed);
+            let r = guard(|| -> Result<(), String> {
+                let e = |x: pgp::errors::Error| x.to_string();
+                let typ = if text { SignatureType::Text } else { SignatureType::Binary };
+                let mut cfg = if sv == 6 { SignatureConfig::v6(rng(seed ^ len as u64), typ, k.primary_key.algorithm(), HashAlgorithm::Sha256).map_err(e)? } else { SignatureConfig::v4(typ, k.primary_key.algorithm(), HashAlgorithm::Sha256) };
+                cfg.hashed_subpackets = hashed_sets(k, 1);
+                cfg.hashed_subpackets.push(Subpacket::regular(SubpacketData::IssuerFingerprint(k.primary_key.fingerprint())).map_err(e)?);
+                let toks = tok_for(if text { 1 } else { 0 }, sv);
+                let ctx = Ctx { cfg: &cfg, doc: &doc, signee: vec![], primary: vec![], subkey: vec![], selfkey: vec![], idbody: vec![] };
+                let want = digest(HashAlgorithm::Sha256, &[&concretise(&toks, &ctx)?]);
+                // sign side, reading the document under a schedule
+                let rs = RecSigner::new(&k.primary_key);
+                let _ = cfg.clone().sign(&rs, &Password::empty(), SchedReader::new(doc.clone(), vec![511, 1, 513])).map_err(e)?;
+                if rs.last().as_deref() != Some(&want[..]) { return Err("SIGN side (SignatureConfig::sign): digest differs from the RFC preimage digest".into()); }
+                let forged = forge_data_signature(cfg.clone(), &k.primary_key, &doc)?;
+                let pubk = k.to_public_key();
+                for sched in [vec![1usize << 20], vec![512], vec![1], vec![511, 2, 7]] {
+                    if sched == [1] && len > 3000 { continue; }
+                    let rv = RecVerifier::new(&pubk.primary_key);
+                    forged.verify(&rv, SchedReader::new(doc.clone(), sched.clone())).map_err(|x| format!("VERIFY side (Signature::verify, reads of {sched:?}): a signature over the RFC preimage is rejected: {x}"))?;
+                    if rv.last().as_deref() != Some(&want[..]) { return Err("VERIFY side: digest differs".into()); }
+                }
+                // prefix-signed message: Signature, Literal
+                let mut msg = Packet::from(forged.clone()).to_bytes().map_err(e)?;
+                let lit = literal_body(b"", &doc);
+                let mut lit = lit;
+                lit[0] = if text { b'u' } else { b'b' };
+                msg.push(0xC0 | 11);
+                msg.extend(enc_new_len(lit.len(), true));
+                msg.extend_from_slice(&lit);
+                for sched in [vec![1usize << 20], vec![509, 3]] {
+                    let mut m = Message::from_bytes(SchedBufReader::new(SchedReader::new(msg.clone(), sched.clone()))).map_err(e)?;
+                    let mut o = Vec::new();
+                    m.read_to_end(&mut o).map_err(|x| x.to_string())?;
+                    if o != doc { return Err("prefix-signed message: payload differs".into()); }
+                    let rv = RecVerifier::new(&pubk.primary_key);
+                    m.verify(&rv).map_err(|x| format!("VERIFY side (prefix-signed message, Message::verify, reads of {sched:?}): a signature over the RFC preimage is rejected: {x}"))?;
+                    if rv.last().as_deref() != Some(&want[..]) { return Err("VERIFY side (prefix-signed message): digest differs".into()); }
+                }
+                Ok(())
+            });
+            sink.put(rec("c11.documents", json!({"len": len, "tail": String::from_utf8_lossy(tail).escape_debug().to_string(), "text": text, "sigver": sv}), r.is_ok(), "digest", json!({"outcome": r.class(), "detail": r.detail()})));
+        });
     } else {
         // ---- C13
         let fcases: Vec<&Value> = cases.iter().filter(|c| c["kind"] == "fingerprint").collect();
@@ -374,43 +470,10 @@ pub fn run(cases_path: &str, out_path: &str, tier: &str, seed: u64, which: &str)
                 seen_versions.lock().unwrap().insert(kv);
                 nontrivial.fetch_add(1, std::sync::atomic::Ordering::Relaxed);
                 let r = guard(|| -> Result<(), String> {
-                    // preimage from the specification's tokens
-                    let mut pre = Vec::new();
-                    let mut modulus: Vec<u8> = Vec::new();
-                    for t in rl["preimage"].as_array().unwrap() {
-                        match t["k"].as_str().unwrap() {
-                            "keyframe" => {
-                                pre.push(t["b"].as_u64().unwrap() as u8);
-                                if t["c"] == 2 { pre.extend_from_slice(&(bodyb.len() as u16).to_be_bytes()) } else { pre.extend_from_slice(&(bodyb.len() as u32).to_be_bytes()) }
-                                pre.extend_from_slice(&bodyb);
-                            }
-                            "mpi_value" => {
-                                // v3 body: version, created(4), validity(2), algorithm, MPI n, MPI e
-                                let mut p = 8;
-                                let mut vals = Vec::new();
-                                for _ in 0..2 {
-                                    let bits = u16::from_be_bytes([bodyb[p], bodyb[p + 1]]) as usize;
-                                    let n = bits.div_ceil(8);
-                                    vals.push(bodyb[p + 2..p + 2 + n].to_vec());
-                                    p += 2 + n;
-                                }
-                                let v = if t["a"] == "n" { &vals[0] } else { &vals[1] };
-                                if t["a"] == "n" { modulus = v.clone(); }
-                                pre.extend_from_slice(v);
-                            }
-                            other => return Err(format!("token {other}")),
-                        }
-                    }
-                    let h = match rl["hash"].as_str().unwrap() { "md5" => HashAlgorithm::Md5, "sha1" => HashAlgorithm::Sha1, _ => HashAlgorithm::Sha256 };
-                    let want = digest(h, &[&pre]);
-                    if fpr.as_bytes() != &want[..] || want.len() as u64 != rl["fprlen"].as_u64().unwrap() {
+                    let (want, want_id) = indep_identity(rl, &bodyb)?;
+                    if fpr.as_bytes() != &want[..] {
                         return Err(format!("fingerprint() = {} but the RFC definition gives {}", hex::encode(fpr.as_bytes()), hex::encode(&want)));
                     }
-                    let want_id: Vec<u8> = match rl["keyid"].as_str().unwrap() {
-                        "low64_of_fingerprint" => want[want.len() - 8..].to_vec(),
-                        "high64_of_fingerprint" => want[..8].to_vec(),
-                        _ => modulus[modulus.len() - 8..].to_vec(),
-                    };
                     if kid.as_ref() != &want_id[..] {
                         return Err(format!("key id {} but the RFC definition gives {}", hex::encode(kid.as_ref()), hex::encode(&want_id)));
                     }
@@ -434,59 +497,229 @@ pub fn run(cases_path: &str, out_path: &str, tier: &str, seed: u64, which: &str)
                         return Err("re-parsed copy reports another fingerprint".into());
                     }
                     let v6 = sec.primary_key.version() == KeyVersion::V6;
-                    // issuer subpackets of a library-made signature
-                    let ds = DetachedSignature::sign_binary_data(rng(seed), &sec.primary_key, &Password::empty(), sec.primary_key.hash_alg_pub(), &b"x"[..]).map_err(e)?;
-                    let fps = ds.signature.issuer_fingerprint();
-                    if fps.len() != 1 || *fps[0] != fp {
-                        return Err("issuer fingerprint subpacket is not the signer's fingerprint".into());
-                    }
-                    let ids = ds.signature.issuer_key_id();
-                    if v6 != ids.is_empty() || (!v6 && *ids[0] != kid) {
-                        return Err("issuer key id subpacket is wrong (must be the key id for v4, absent for v6)".into());
-                    }
-                    ds.verify(pubk, b"x").map_err(|x| format!("lookup by embedded issuer fails: {x}"))?;
-                    // one-pass header and PKESK recipient fields
-                    let mut b = MessageBuilder::from_bytes("", b"payload".to_vec());
-                    b.sign(&sec.primary_key, Password::empty(), sec.primary_key.hash_alg_pub());
-                    let signed = b.to_vec(rng(seed)).map_err(e)?;
-                    let ops = deframe_stream(&signed)?.into_iter().find(|p| p.tag == 4).ok_or("no one-pass packet")?;
-                    if v6 {
-                        // v6 OPS: 6, type, hash, pk, saltlen, salt, fingerprint(32), last
-                        let sl = ops.body[4] as usize;
-                        if ops.body[5 + sl..5 + sl + 32] != *fp.as_bytes() { return Err("v6 one-pass packet does not carry the signer's fingerprint".into()); }
-                    } else if ops.body[4..12] != *kid.as_ref() {
-                        return Err("v3 one-pass packet does not carry the signer's key id".into());
-                    }
-                    if !sec.secret_subkeys.is_empty() {
-                        let sub = sec.secret_subkeys[0].public_key();
-                        let enc = if v6 {
-                            let mut b = MessageBuilder::from_bytes("", b"payload".to_vec()).seipd_v2(rng(seed), pgp::crypto::sym::SymmetricKeyAlgorithm::AES128, pgp::crypto::aead::AeadAlgorithm::Ocb, pgp::crypto::aead::ChunkSize::C64B);
-                            b.encrypt_to_key(rng(seed), &sub).map_err(e)?;
-                            b.to_vec(rng(seed)).map_err(e)?
-                        } else {
-                            let mut b = MessageBuilder::from_bytes("", b"payload".to_vec()).seipd_v1(rng(seed), pgp::crypto::sym::SymmetricKeyAlgorithm::AES128);
-                            b.encrypt_to_key(rng(seed), &sub).map_err(e)?;
-                            b.to_vec(rng(seed)).map_err(e)?
-                        };
-                        let pk = deframe_stream(&enc)?.into_iter().find(|p| p.tag == 1).ok_or("no PKESK")?;
-                        let sfp = sub.fingerprint();
-                        if v6 {
-                            if pk.body[1] != 33 || pk.body[2] != 6 || pk.body[3..35] != *sfp.as_bytes() { return Err("v6 PKESK does not carry the recipient subkey's fingerprint".into()); }
-                        } else if pk.body[1..9] != *sub.legacy_key_id().as_ref() {
-                            return Err("v3 PKESK does not carry the recipient subkey's key id".into());
+                    // every site the specification lists for this key version, read back with independent parsing
+                    let kvn: u64 = if v6 { 6 } else { 4 };
+                    let rl = rule(kvn).ok_or("no rule")?;
+                    let (ifp, ikid) = indep_identity(rl, &sec.primary_key.public_key().to_bytes().map_err(e)?)?;
+                    // another certificate of the other flavour plays the certified party
+                    let other = corpus.iter().filter_map(|c| c.2.as_ref()).find(|o| o.fingerprint() != fp).ok_or("no second key")?;
+                    let opub = other.to_public_key();
+                    let halg = sec.primary_key.hash_alg_pub();
+                    let check_sig = |sig: &Signature, what: &str, value: &str| -> Result<(), String> {
+                        // subpacket areas re-read from the serialised packet by the independent deframer + a minimal subpacket walker
+                        let bytes = Packet::from(sig.clone()).to_bytes().map_err(|x| x.to_string())?;
+                        let body = deframe_stream(&bytes)?.remove(0).body;
+                        let (mut ids, mut fprs) = (Vec::new(), Vec::new());
+                        let wide = body[0] == 6;
+                        let mut p = 4;
+                        for _area in 0..2 {
+                            let n = if wide { let n = u32::from_be_bytes(body[p..p + 4].try_into().unwrap()) as usize; p += 4; n } else { let n = u16::from_be_bytes(body[p..p + 2].try_into().unwrap()) as usize; p += 2; n };
+                            let end = p + n;
+                            while p < end {
+                                let (l, hl) = match body[p] { x @ 0..=191 => (x as usize, 1), x @ 192..=254 => (((x as usize - 192) << 8) + body[p + 1] as usize + 192, 2), _ => (u32::from_be_bytes(body[p + 1..p + 5].try_into().unwrap()) as usize, 5) };
+                                let typ = body[p + hl] & 0x7f;
+                                let data = &body[p + hl + 1..p + hl + l];
+                                if typ == 16 { ids.push(data.to_vec()); }
+                                if typ == 33 { fprs.push(data[1..].to_vec()); }
+                                p += hl + l;
+                            }
                         }
-                        let mut m = Message::from_bytes(&enc[..]).map_err(e)?.decrypt(&Password::empty(), sec).map_err(|x| format!("lookup by embedded recipient fails: {x}"))?;
-                        let mut o = Vec::new();
-                        m.read_to_end(&mut o).map_err(|x| x.to_string())?;
+                        match (what, value) {
+                            ("issuer_fingerprint_subpacket", "fingerprint") => if fprs != vec![ifp.clone()] { return Err(format!("issuer fingerprint subpacket(s) {:?} are not exactly the signer's fingerprint", fprs.iter().map(hex::encode).collect::<Vec<_>>())); },
+                            ("issuer_key_id_subpacket", "keyid") => if ids != vec![ikid.clone()] { return Err(format!("issuer key id subpacket(s) {:?} are not exactly the signer's key id {}", ids.iter().map(hex::encode).collect::<Vec<_>>(), hex::encode(&ikid))); },
+                            ("issuer_key_id_subpacket", "absent") => if !ids.is_empty() { return Err("a v6 signature carries an issuer key id subpacket".into()); },
+                            _ => return Err(format!("unknown site value {what}/{value}")),
+                        }
+                        Ok(())
+                    };
+                    for site in rl["sites"].as_array().unwrap() {
+                        let (sname, value) = (site["site"].as_str().unwrap(), site["value"].as_str().unwrap());
+                        let fail = |m: String| format!("site {sname}: {m}");
+                        match sname.split('.').next().unwrap() {
+                            "data_signature" => {
+                                let ds = DetachedSignature::sign_binary_data(rng(seed), &sec.primary_key, &Password::empty(), halg, &b"x"[..]).map_err(e)?;
+                                check_sig(&ds.signature, sname.split('.').nth(1).unwrap(), value).map_err(fail)?;
+                                ds.verify(pubk, b"x").map_err(|x| fail(format!("lookup by embedded issuer fails: {x}")))?;
+                            }
+                            "certification_third_party" => {
+                                let uid = UserId::from_str(PacketHeaderVersion::New, "someone else").map_err(e)?;
+                                let su = uid.sign_third_party(rng(seed), &sec.primary_key, &Password::empty(), &opub.primary_key, SignatureType::CertGeneric).map_err(e)?;
+                                check_sig(&su.signatures[0], sname.split('.').nth(1).unwrap(), value).map_err(fail)?;
+                                su.verify_third_party(&opub.primary_key, &pubk.primary_key).map_err(|x| fail(format!("lookup by embedded issuer fails: {x}")))?;
+                            }
+                            "attribute_certification_third_party" => {
+                                let uat = UserAttribute::new_image(vec![0xFFu8, 0xD8, 1, 2, 3].into()).map_err(e)?;
+                                let su = uat.sign_third_party(rng(seed), &sec.primary_key, &Password::empty(), &opub.primary_key, SignatureType::CertPositive).map_err(e)?;
+                                check_sig(&su.signatures[0], sname.split('.').nth(1).unwrap(), value).map_err(fail)?;
+                                su.verify_third_party(&opub.primary_key, &pubk.primary_key).map_err(|x| fail(format!("lookup by embedded issuer fails: {x}")))?;
+                            }
+                            "ops_v3" | "ops_v6" => {
+                                let custom = sname.ends_with("custom_subpackets");
+                                let mut b = MessageBuilder::from_bytes("", b"payload".to_vec());
+                                if custom {
+                                    // a caller-chosen subpacket set WITHOUT any issuer information: the one-pass packet must still name the signer
+                                    let hashed = vec![Subpacket::regular(SubpacketData::SignatureCreationTime(Timestamp::now())).map_err(e)?];
+                                    b.sign_with_subpackets(&sec.primary_key, Password::empty(), halg, pgp::composed::SubpacketConfig::UserDefined { hashed, unhashed: vec![] });
+                                } else {
+                                    b.sign(&sec.primary_key, Password::empty(), halg);
+                                }
+                                let signed = b.to_vec(rng(seed)).map_err(e)?;
+                                let ops = deframe_stream(&signed)?.into_iter().find(|p| p.tag == 4).ok_or("no one-pass packet")?;
+                                if v6 {
+                                    // v6 OPS: 6, type, hash, pk, saltlen, salt, fingerprint(32), last
+                                    let sl = ops.body[4] as usize;
+                                    if ops.body[0] != 6 || ops.body[5 + sl..5 + sl + 32] != ifp[..] { return Err(fail("one-pass packet does not carry the signer's fingerprint".into())); }
+                                } else if ops.body[0] != 3 || ops.body[4..12] != ikid[..] {
+                                    return Err(fail(format!("one-pass packet carries {} instead of the signer's key id {}", hex::encode(&ops.body[4..12]), hex::encode(&ikid))));
+                                }
+                                let mut m = Message::from_bytes(&signed[..]).map_err(e)?;
+                                let mut o = Vec::new();
+                                m.read_to_end(&mut o).map_err(|x| x.to_string())?;
+                                m.verify(&pubk.primary_key).map_err(|x| fail(format!("lookup by embedded issuer fails: {x}")))?;
+                            }
+                            "pkesk_v3" | "pkesk_v6" => {
+                                if sec.secret_subkeys.is_empty() { continue; }
+                                let sub = sec.secret_subkeys[0].public_key();
+                                let (sfp, skid) = indep_identity(rl, &sub.to_bytes().map_err(e)?)?;
+                                let enc = if v6 {
+                                    let mut b = MessageBuilder::from_bytes("", b"payload".to_vec()).seipd_v2(rng(seed), pgp::crypto::sym::SymmetricKeyAlgorithm::AES128, pgp::crypto::aead::AeadAlgorithm::Ocb, pgp::crypto::aead::ChunkSize::C64B);
+                                    b.encrypt_to_key(rng(seed), &sub).map_err(e)?;
+                                    b.to_vec(rng(seed)).map_err(e)?
+                                } else {
+                                    let mut b = MessageBuilder::from_bytes("", b"payload".to_vec()).seipd_v1(rng(seed), pgp::crypto::sym::SymmetricKeyAlgorithm::AES128);
+                                    b.encrypt_to_key(rng(seed), &sub).map_err(e)?;
+                                    b.to_vec(rng(seed)).map_err(e)?
+                                };
+                                let pk = deframe_stream(&enc)?.into_iter().find(|p| p.tag == 1).ok_or("no PKESK")?;
+                                if v6 {
+                                    if pk.body[0] != 6 || pk.body[1] != 33 || pk.body[2] != 6 || pk.body[3..35] != sfp[..] { return Err(fail("v6 PKESK does not carry the recipient subkey's fingerprint".into())); }
+                                } else if pk.body[0] != 3 || pk.body[1..9] != skid[..] {
+                                    return Err(fail("v3 PKESK does not carry the recipient subkey's key id".into()));
+                                }
+                                let mut m = Message::from_bytes(&enc[..]).map_err(e)?.decrypt(&Password::empty(), sec).map_err(|x| fail(format!("lookup by embedded recipient fails: {x}")))?;
+                                let mut o = Vec::new();
+                                m.read_to_end(&mut o).map_err(|x| x.to_string())?;
+                            }
+                            other => return Err(format!("site {other} is not implemented by the harness")),
+                        }
                     }
                     Ok(())
                 });
                 sink.put(rec("c13.stable_and_embedded", json!({"key": name}), r.is_ok(), "fingerprint_embed", json!({"outcome": r.class(), "detail": r.detail()})));
             }
+            // attribution through the named identities (the specification's match table)
+            {
+                let mcases: Vec<&Value> = cases.iter().filter(|c| c["kind"] == "match").collect();
+                let table = |hi: bool, ie: bool, hf: bool, fe: bool| -> Option<bool> {
+                    mcases.iter().find(|c| c["has_ids"] == hi && c["id_eq"] == ie && c["has_fprs"] == hf && c["fpr_eq"] == fe).and_then(|c| c["matches"].as_bool())
+                };
+                let kv: u64 = match pubk.primary_key.version() { KeyVersion::V2 | KeyVersion::V3 => 3, KeyVersion::V4 => 4, KeyVersion::V6 => 6, _ => 0 };
+                if let (Some(rl), Ok(bodyb)) = (rule(kv), pubk.primary_key.to_bytes()) {
+                    if let Ok((ifp, ikid)) = indep_identity(rl, &bodyb) {
+                        // (a) the certificate's own certifications, as found
+                        for (ui, user) in pubk.details.users.iter().enumerate() {
+                            for (si, sig) in user.signatures.iter().enumerate() {
+                                let ids = sig.issuer_key_id();
+                                let fps = sig.issuer_fingerprint();
+                                let (hi, hf) = (!ids.is_empty(), !fps.is_empty());
+                                let ie = ids.iter().any(|i| i.as_ref() == &ikid[..]);
+                                let fe = fps.iter().any(|f| f.as_bytes() == &ifp[..]);
+                                let Some(expect) = table(hi, ie, hf, fe) else { continue };
+                                nontrivial.fetch_add(1, std::sync::atomic::Ordering::Relaxed);
+                                let r = guard(|| -> Result<(), String> {
+                                    let res = sig.verify_certification(&pubk.primary_key, Tag::UserId, &user.id);
+                                    match (&res, expect) {
+                                        (Ok(()), false) => Err("a certification that names only OTHER identities verifies under this key".into()),
+                                        (Err(x), true) if (hi || hf) && x.to_string().contains("No matching issuer") => Err(format!("the certification names this key (id match {ie}, fingerprint match {fe}) but is not attributed to it: {x}")),
+                                        _ => Ok(()),
+                                    }
+                                });
+                                sink.put(rec("c13.lookup_fixture", json!({"key": name, "user": ui, "sig": si, "has_ids": hi, "id_eq": ie, "has_fprs": hf, "fpr_eq": fe, "expect": expect}), r.is_ok(), "fingerprint_lookup", json!({"outcome": r.class(), "detail": r.detail()})));
+                            }
+                        }
+                        // (b) every row of the table with valid cryptography
+                        if let Some(sec) = sec {
+                            for mc in &mcases {
+                                let (hi, ie, hf, fe) = (mc["has_ids"] == true, mc["id_eq"] == true, mc["has_fprs"] == true, mc["fpr_eq"] == true);
+                                let expect = mc["matches"] == true;
+                                nontrivial.fetch_add(1, std::sync::atomic::Ordering::Relaxed);
+                                let r = guard(|| -> Result<(), String> {
+                                    let e = |x: pgp::errors::Error| x.to_string();
+                                    let v6 = kv == 6;
+                                    let halg = sec.primary_key.hash_alg_pub();
+                                    let mut cfg = if v6 { SignatureConfig::v6(rng(seed), SignatureType::Binary, sec.primary_key.algorithm(), halg).map_err(e)? } else { SignatureConfig::v4(SignatureType::Binary, sec.primary_key.algorithm(), halg) };
+                                    cfg.hashed_subpackets = vec![Subpacket::regular(SubpacketData::SignatureCreationTime(Timestamp::now())).map_err(e)?];
+                                    let mut wrong_id = ikid.clone();
+                                    wrong_id[3] ^= 0x40;
+                                    let mut wrong_fp = ifp.clone();
+                                    wrong_fp[5] ^= 0x01;
+                                    if hf {
+                                        let raw = if fe { &ifp } else { &wrong_fp };
+                                        let f = pgp::types::Fingerprint::new(sec.primary_key.version(), raw).map_err(e)?;
+                                        cfg.hashed_subpackets.push(Subpacket::regular(SubpacketData::IssuerFingerprint(f)).map_err(e)?);
+                                    }
+                                    if hi {
+                                        let raw: [u8; 8] = if ie { ikid.clone() } else { wrong_id }.try_into().unwrap();
+                                        cfg.unhashed_subpackets.push(Subpacket::regular(SubpacketData::IssuerKeyId(pgp::types::KeyId::from(raw))).map_err(e)?);
+                                    }
+                                    let sig = forge_data_signature(cfg, &sec.primary_key, b"lookup")?;
+                                    let res = sig.verify(&pubk.primary_key, &b"lookup"[..]);
+                                    if res.is_ok() != expect {
+                                        return Err(format!("validly made signature naming (key id: present {hi} equal {ie}; fingerprint: present {hf} equal {fe}) -> verify {:?}, the specification says attributed = {expect}", res.map_err(|x| x.to_string())));
+                                    }
+                                    Ok(())
+                                });
+                                sink.put(rec("c13.lookup_table", json!({"key": name, "row": mc}), r.is_ok(), "fingerprint_lookup", json!({"outcome": r.class(), "detail": r.detail()})));
+                            }
+                        }
+                    }
+                }
+            }
         });
         sink.raw(json!({"ok": true, "check": "c13.corpus", "note": "key versions seen in the corpus", "versions": seen_versions.lock().unwrap().iter().collect::<Vec<_>>(), "corpus": corpus.len()}));
     }
     sink.finish(json!({"cases": cases.len(), "nontrivial": nontrivial.load(std::sync::atomic::Ordering::Relaxed)}));
+}
+
+/// fingerprint and key id from the specification's rule for this key version, computed with the primitive crates
+fn indep_identity(rl: &Value, bodyb: &[u8]) -> Result<(Vec<u8>, Vec<u8>), String> {
+    let mut pre = Vec::new();
+    let mut modulus: Vec<u8> = Vec::new();
+    for t in rl["preimage"].as_array().unwrap() {
+        match t["k"].as_str().unwrap() {
+            "keyframe" => {
+                pre.push(t["b"].as_u64().unwrap() as u8);
+                if t["c"] == 2 { pre.extend_from_slice(&(bodyb.len() as u16).to_be_bytes()) } else { pre.extend_from_slice(&(bodyb.len() as u32).to_be_bytes()) }
+                pre.extend_from_slice(bodyb);
+            }
+            "mpi_value" => {
+                // v3 body: version, created(4), validity(2), algorithm, MPI n, MPI e
+                let mut p = 8;
+                let mut vals = Vec::new();
+                for _ in 0..2 {
+                    if bodyb.len() < p + 2 { return Err("short v3 key body".into()); }
+                    let bits = u16::from_be_bytes([bodyb[p], bodyb[p + 1]]) as usize;
+                    let n = bits.div_ceil(8);
+                    if bodyb.len() < p + 2 + n { return Err("short v3 key body".into()); }
+                    vals.push(bodyb[p + 2..p + 2 + n].to_vec());
+                    p += 2 + n;
+                }
+                let v = if t["a"] == "n" { &vals[0] } else { &vals[1] };
+                if t["a"] == "n" { modulus = v.clone(); }
+                pre.extend_from_slice(v);
+            }
+            other => return Err(format!("token {other}")),
+        }
+    }
+    let h = match rl["hash"].as_str().unwrap() { "md5" => HashAlgorithm::Md5, "sha1" => HashAlgorithm::Sha1, _ => HashAlgorithm::Sha256 };
+    let want = digest(h, &[&pre]);
+    if want.len() as u64 != rl["fprlen"].as_u64().unwrap() { return Err("fingerprint length".into()); }
+    let want_id: Vec<u8> = match rl["keyid"].as_str().unwrap() {
+        "low64_of_fingerprint" => want[want.len() - 8..].to_vec(),
+        "high64_of_fingerprint" => want[..8].to_vec(),
+        _ => { if modulus.len() < 8 { return Err("short modulus".into()); } modulus[modulus.len() - 8..].to_vec() }
+    };
+    Ok((want, want_id))
 }
 
 trait HashAlgPub {
